@@ -14,10 +14,12 @@ package c01
 
 import (
 	"embed"
+	"encoding/hex"
 	"encoding/json"
 	"fmt"
 	"sort"
 	"strings"
+	"unicode/utf8"
 
 	"github.com/openconfig/goyang/pkg/yang"
 	"verif/mc/core"
@@ -29,6 +31,23 @@ import (
 type File struct {
 	Name string `json:"name"`
 	Text string `json:"text"`
+	Hex  string `json:"hex,omitempty"` // the text, when it is not valid UTF-8 (JSON cannot carry it)
+}
+
+// mkFile stores text in a form that survives the JSON round trip of a replay file.
+func mkFile(name, text string) File {
+	if utf8.ValidString(text) {
+		return File{Name: name, Text: text}
+	}
+	return File{Name: name, Hex: hex.EncodeToString([]byte(text))}
+}
+
+func (f File) text() string {
+	if f.Hex != "" {
+		b, _ := hex.DecodeString(f.Hex)
+		return string(b)
+	}
+	return f.Text
 }
 
 type Input struct {
@@ -60,7 +79,7 @@ func walk(e *yang.Entry, depth int, seen map[*yang.Entry]bool, f func(*yang.Entr
 // exercise drives the whole pipeline on one sequence of files; panics propagate to the caller's Guard.
 func exercise(in Input) string {
 	for _, f := range in.Files {
-		ss, err := yang.Parse(f.Text, f.Name)
+		ss, err := yang.Parse(f.text(), f.Name)
 		if err != nil {
 			_ = err.Error()
 		}
@@ -71,7 +90,7 @@ func exercise(in Input) string {
 	ms := yang.NewModules()
 	loaded := 0
 	for _, f := range in.Files {
-		if err := ms.Parse(f.Text, f.Name); err != nil {
+		if err := ms.Parse(f.text(), f.Name); err != nil {
 			_ = err.Error()
 		} else {
 			loaded++
@@ -155,7 +174,7 @@ func stmt(k, arg, inner string) string {
 func l3(c *core.Ctx, hi, k1 int, deep bool, emit func(in Input)) {
 	h := headers[hi]
 	wrap := func(body string) Input {
-		return Input{Files: []File{{"f.yang", h.open + body + h.close}}}
+		return Input{Files: []File{{Name: "f.yang", Text: h.open + body + h.close}}}
 	}
 	a := K[k1]
 	for _, x1 := range argPool {
@@ -232,20 +251,20 @@ func l4(c *core.Ctx, shard int, thorough bool, emit func(in Input)) {
 			return
 		}
 		a1 := l4headers["m"] + la + " " + d1 + " }"
-		emit(Input{Files: []File{{"m.yang", a1}}})
+		emit(Input{Files: []File{{Name: "m.yang", Text: a1}}})
 		for j := i % stride1; j < len(pa); j += stride1 {
-			emit(Input{Files: []File{{"m.yang", l4headers["m"] + la + " " + d1 + " " + pa[j] + " }"}}})
+			emit(Input{Files: []File{{Name: "m.yang", Text: l4headers["m"] + la + " " + d1 + " " + pa[j] + " }"}}})
 		}
 		for _, bk := range l4kinds {
 			for _, lb := range linksB[bk] {
 				for k := (i * 3) % stride2; k < len(pa); k += stride2 {
 					b := l4headers[bk] + lb + " " + pa[k] + " }"
-					fa, fb := File{"m.yang", a1}, File{bk + ".yang", b}
+					fa, fb := File{Name: "m.yang", Text: a1}, File{Name: bk + ".yang", Text: b}
 					emit(Input{Files: []File{fa, fb}})
 					emit(Input{Files: []File{fb, fa}})
 					if thorough && k%4 == 0 {
 						emit(Input{Files: []File{fa, fb, fa}})
-						third := File{"t.yang", `submodule t { belongs-to m { prefix m; } include s; ` + pa[(k+i)%len(pa)] + ` }`}
+						third := File{Name: "t.yang", Text: `submodule t { belongs-to m { prefix m; } include s; ` + pa[(k+i)%len(pa)] + ` }`}
 						for _, p := range explore.Perms(3) {
 							fs := []File{fa, fb, third}
 							emit(Input{Files: []File{fs[p[0]], fs[p[1]], fs[p[2]]}})
@@ -390,7 +409,7 @@ func l5(c *core.Ctx, gi, fi, part int, emit func(in Input)) {
 				}
 				var sb strings.Builder
 				t.render(&sb)
-				files = append(files, File{f, sb.String()})
+				files = append(files, File{Name: f, Text: sb.String()})
 			}
 			emit(Input{Files: files})
 		}
@@ -479,7 +498,7 @@ func run(c *core.Ctx) {
 			if c.Expired() {
 				return false
 			}
-			emit(Input{Files: []File{{"f", text}}})
+			emit(Input{Files: []File{mkFile("f", text)}})
 			return true
 		})
 	case "L3":
